@@ -611,11 +611,11 @@ func main() {
 	}
 
 	rng := vlib.NewRng(r.Seed)
-	for i, n := 0, r.Scale(20000, 400000); i < n; i++ {
+	for i, n := 0, r.Scale(60000, 1000000); i < n; i++ {
 		t := genTree(rng, rng.Range(1, 4))
 		check(r, d, tcase{Kind: "err", Tree: t, Twin: twin(rng, t)})
 	}
-	for i, n := 0, r.Scale(8000, 150000); i < n; i++ {
+	for i, n := 0, r.Scale(24000, 350000); i < n; i++ {
 		check(r, d, genAddrCase(rng))
 	}
 	r.Finish()
